@@ -25,7 +25,7 @@ FEATURE_OF = {"blocking": "blocking", "tokio": "tokio"}
 
 def impls_present(ctx):
     """implementations compiled in this configuration"""
-    feats = {"default": ("blocking", "tokio"), "blocking": ("blocking",), "tokio": ("tokio",), "all": ("blocking", "tokio")}[ctx.config]
+    feats = {"default": ("blocking", "tokio"), "blocking": ("blocking",), "websocket": ("tokio",), "all": ("blocking", "tokio")}[ctx.config]
     return feats
 
 
